@@ -72,6 +72,23 @@ Section Main.
     split; [exact I'|]. split; [exact (Inv_no_pending I')|]. split; [exact X | exact P].
   Qed.
 
+  (** a multi-element request (slice, list index): every value of the returned array denotes the interp
+      value of its element - also when the cache entry of an earlier element of the same request has
+      been deleted while a later one was evaluated *)
+  Theorem multi_request_sound fuel tb name ixs : forall s vs s',
+    reachable_inv s -> run_multi O alg (compile alg) W fuel s tb name ixs = (Ok vs, s') ->
+    reachable_inv s' /\ no_pending s' /\ Forall2 (fun ix v => denotes v name ix) ixs vs.
+  Proof.
+    induction ixs as [|ix r IH]; intros s vs s' I E; cbn [run_multi] in E.
+    - inversion E; subst. split; [exact I|]. split; [exact (Inv_no_pending I) | constructor].
+    - destruct (run O alg (compile alg) W fuel s (tb, name, ix)) as [[v| |] s1] eqn:E1; try discriminate.
+      destruct (run_multi O alg (compile alg) W fuel s1 tb name r) as [[vs'| |] s2] eqn:E2; try discriminate.
+      inversion E; subst.
+      destruct (@request_sound fuel s tb name ix (Ok v) s1 I E1 ltac:(discriminate)) as (I1 & _ & _ & P1).
+      destruct (IH _ _ _ I1 E2) as (I2 & N2 & F2).
+      split; [exact I2|]. split; [exact N2|]. constructor; auto.
+  Qed.
+
   (** a whole schedule from the initial state *)
   Theorem schedule_sound fuel calls0 rs os s' :
     run_all O alg (compile alg) W fuel (init_state alg W calls0) rs = (os, s') ->
